@@ -24,7 +24,8 @@ pub fn o_metadata(input: &[u8], p: &P) -> Out {
 			Some(body) => Some(ubj::dec_entries(body, 0).map_err(|m| e("model", m))?.0),
 			None => None,
 		};
-		let g = match read_slp(input, true, false) {
+		// skip_frames keeps the read cheap, but needs exactly one Game End (it jumps to the last one)
+		let g = match read_slp(input, rg.n_ends == 1, false) {
 			Ok(g) => g,
 			// beyond the library's nesting bound (needed so that hostile nesting cannot overflow the stack)
 			// a refusal is accepted; whatever IS accepted must make the whole trip
@@ -130,9 +131,10 @@ fn trees(levels: &[Level], depth: usize) -> Vec<Meta> {
 	out
 }
 
-fn file_with_meta(m: Option<&Meta>) -> Vec<u8> {
+fn file_with_meta(m: Option<&Meta>, ends: u8) -> Vec<u8> {
 	let mut a = base_replay((3, 16), vec![pc(0, false), pc(1, false)], 0);
 	a.metadata = m.cloned();
+	a.ends = ends;
 	record(&a).doc.assemble()
 }
 
@@ -141,7 +143,7 @@ pub fn run() {
 	let s255: String = "ü".repeat(127) + "x"; // 255 bytes of UTF-8
 	let k255: String = "k".repeat(255);
 	let marker = "U S l { } \u{0} [".to_string();
-	cx.note("rule", json!("all trees of a bounded grammar, every key ORDER included (ordered selections of distinct keys): level-1 maps with <=3 entries over keys {\"\", a, é, lastFrame, 255-byte key} (quick: 3 keys) and 12 leaf values (strings \"\", x, 255 bytes of 2-byte UTF-8, text made of the marker bytes U S l { } NUL; ints 0, 1, -1, 127, 128, 65536, i32::MIN, i32::MAX); nested trees to depth 3 with <=2 entries per map; chains of depth 1..140 (beyond depth 100 the reader may refuse; whatever it accepts must make the whole trip); widths up to 40 entries; no metadata; empty metadata. Encoded by the harness's own UBJSON writer, embedded in a minimal replay. Oracle: Game.metadata == the tree with the same key order, write reproduces the input bytes, metadata.json inside the .slpp (own tar reader, order-preserving tokenizer) has the same keys in the same order and the same values, peppi::read gives the same tree; absent metadata => None / null. Every case is non-trivial (distinct tree)"));
+	cx.note("rule", json!("all trees of a bounded grammar, every key ORDER included (ordered selections of distinct keys): level-1 maps with <=3 entries over keys {\"\", a, é, lastFrame, 255-byte key} (quick: 3 keys) and 12 leaf values (strings \"\", x, 255 bytes of 2-byte UTF-8, text made of the marker bytes U S l { } NUL; ints 0, 1, -1, 127, 128, 65536, i32::MIN, i32::MAX); nested trees to depth 3 with <=2 entries per map; chains of depth 1..140 (beyond depth 100 the reader may refuse; whatever it accepts must make the whole trip); widths up to 40 entries; 100..255 sibling maps (at top level, at depth 3, next to a 100-deep chain); no metadata; empty metadata; each with Game End present, absent or doubled (rotating). Encoded by the harness's own UBJSON writer, embedded in a minimal replay. Oracle: Game.metadata == the tree with the same key order, write reproduces the input bytes, metadata.json inside the .slpp (own tar reader, order-preserving tokenizer) has the same keys in the same order and the same values, peppi::read gives the same tree; absent metadata => None / null. Every case is non-trivial (distinct tree)"));
 	cx.note("exhaustive", json!(true));
 	cx.note("assumptions", json!(["map nesting is bounded by the library (fix 1cec1ba) so that hostile nesting cannot overflow the stack; a refusal beyond depth 100 is accepted", "trees larger than the grammar (more entries per map, deeper nesting with wide maps) are not enumerated"]));
 	let quick = cx.quick();
@@ -170,9 +172,26 @@ pub fn run() {
 		all.push(Some((0..w).rev().map(|i| (format!("key{}", (i * 7) % w), MVal::Int(i as i32))).collect()));
 	}
 	all.push(Some(vec![(k255.clone(), MVal::Str(s255.clone())), ("players".into(), MVal::Map(vec![("1".into(), MVal::Map(vec![])), ("0".into(), MVal::Map(vec![]))]))]));
+	// many maps that are NOT nested in each other: siblings, and siblings next to a chain
+	for n in [100usize, 126, 127, 128, 200, 255] {
+		all.push(Some((0..n).map(|i| (format!("m{}", i), MVal::Map(vec![("v".into(), MVal::Int(i as i32))]))).collect()));
+		all.push(Some(vec![("a".into(), MVal::Map(vec![("b".into(), MVal::Map((0..n).map(|i| (format!("{}", i), MVal::Map(vec![]))).collect()))]))]));
+	}
+	{
+		let mut chain: Meta = vec![("leaf".into(), MVal::Str("x".into()))];
+		for i in 0..100 {
+			chain = vec![(format!("d{}", i), MVal::Map(chain))];
+		}
+		let mut m: Meta = (0..60).map(|i| (format!("s{}", i), MVal::Map(vec![]))).collect();
+		m.push(("chain".into(), MVal::Map(chain.clone())));
+		m.extend((0..60).map(|i| (format!("t{}", i), MVal::Map(vec![("z".into(), MVal::Map(vec![]))]))));
+		all.push(Some(m));
+	}
 	cx.note("trees", json!(all.len()));
 	par_each(all.into_iter().enumerate(), |(n, m), local| {
-		let bytes = Arc::new(file_with_meta(m.as_ref()));
+		// Game End present / absent / doubled, rotating over the trees (the special shapes get all three)
+		let ends = [1u8, 0, 2][n % 3];
+		let bytes = Arc::new(file_with_meta(m.as_ref(), ends));
 		let depth = |m: &Meta| -> usize {
 			let mut d = 1;
 			let mut cur = m;
